@@ -22,7 +22,7 @@ def constructions(F, enum, within=None):
     return out
 
 
-@rule("C16", "C16.a.no-generic-error", floor=4)
+@rule("C16", "C16.a.no-generic-error", floor=2)
 def c16a(F, R):
     """no construction of CfgError::UnexpectedError / AssertionError in code reachable from gen_full_cfg"""
     roots = [p for p in F.fns if p.endswith("::Manager::gen_full_cfg")]
@@ -65,7 +65,7 @@ def c16b(F, R):
                 R.ok(key, detail=f"CfgError::{v}.{meth}() comes from its payload")
 
 
-@rule("C16", "C16.c.label-errors-carry-tokens", floor=3)
+@rule("C16", "C16.c.label-errors-carry-tokens", floor=2)
 def c16c(F, R):
     """LabelsNotDefined is built only from a non-empty set of the offending label tokens, DuplicateLabel from the duplicated label's own token"""
     np_ = [q for q in F.fns if q.endswith("Cfg::new_with_predefined_call_names")]
@@ -144,8 +144,8 @@ def c16c(F, R):
         R.bad("duplicate-label-token|missing", "UNEXTRACTABLE: construction of DuplicateLabel not found", f["sp"])
 
 
-@rule("C18", "C18.k.analysis-failures-reach-the-list", floor=2)
-@rule("C16", "C16.e.analysis-failures-reach-the-list", floor=2)
+@rule("C18", "C18.k.analysis-failures-reach-the-list", floor=1)
+@rule("C16", "C16.e.analysis-failures-reach-the-list", floor=1)
 def c16e(F, R):
     """when building the graph or running the lints fails, the error is converted and appended to the list that is printed - in the CLI's pipeline and in the library entry point alike: the `Err(e)` arm of the call pushes `DiagnosticItem::from(e)`; an arm that drops the error leaves the user with no lints and no explanation"""
     sites = []
